@@ -34,6 +34,9 @@ const valMod = 9973
 // run can be replayed as a derivation; valued actions also compute $$.
 func (c *Case) actionText(i int, lang string) string {
 	r := c.Rules[i]
+	if r.RawAct != "" {
+		return r.RawAct
+	}
 	if r.Act.Kind == "" {
 		return ""
 	}
